@@ -6,7 +6,8 @@ import numpy as np
 ID = "C13"
 PROPS_FILE = "theories/Props/C13.v"
 EXTRACT = ("theories/Extract/XC13.v", "c13", ["entry_measure", "entry_idioms", "entry_ell_coords", "entry_median", "entry_hull_area",
-                                           "entry_chrystal_many", "entry_chrystal_vec", "entry_sweep_many"])
+                                           "entry_chrystal_many", "entry_chrystal_vec", "entry_sweep_many",
+                                           "entry_hull_areas_vec"])
 PYX = {}
 CASE_TIMEOUT = 60
 RULE = (
@@ -25,7 +26,9 @@ RULE = (
     "call repeated after all the others in the same process, and a check that no input array was modified. Subset / "
     "absent-label / bool-label requests are only generated inside the domain where the function is defined (see "
     "'excluded_*' counters). The exact models (areas, extents, perimeters, Euler, median (two models), ellipse "
-    "moments (two models), skeleton length, per-object hull area and solidity) are compared with the implementation "
+    "moments (two models), skeleton length, per-object hull area and solidity, calculate_convex_hull_areas as "
+    "written incl. the exact set of requests on which it raises IndexError, minimum enclosing circle (scalar and "
+    "vectorised Chrystal), Feret calipers) are compared with the implementation "
     "on the scene, the absent-label request, the renumbered scene and the padded scene. idiom cases: bincount / "
     "anti-index / offsets / Indexes / table_idx_from_labels against NumPy and centrosome. non-trivial = at least two "
     "objects and at least one object touching another one or nested; distinct by hash of the case")
@@ -33,8 +36,10 @@ TRUSTED = [
     "modelled, not verified: the float numerics of every measurement (sqrt, arctan2, arccos, log, division); "
     "scipy.ndimage.sum/minimum/maximum with an index list (modelled by their specification); NumPy fancy indexing, "
     "lexsort, cumsum",
-    "hull area/solidity, enclosing circle, Feret, Zernike, Haralick: no Coq model, decided by the two-run relations "
-    "on the implementation (floats at 1e-9 relative, ints exact)",
+    "Zernike, Haralick: no Coq model, decided by the two-run relations on the implementation (floats at 1e-9 "
+    "relative, ints exact)",
+    "hull area, enclosing circle, Feret: the Coq models are exact (integers / rationals, squared quantities); the "
+    "final float sqrt / division of the implementation is compared at 1e-9 relative",
 ]
 ASSUMPTIONS = [
     "labels are non-negative and below 2^31; request lists are duplicate-free",
@@ -671,6 +676,7 @@ def impl(case):
     o = {"base": _measures(lab, img, idx, sk)}
     o["hullv"] = _hullv(lab, idx)
     o["hullv_perm"] = _hullv(lab, case["perm"])
+    o["hullv_absent"] = _hullv(lab, case["absent"])
     o["perm"] = _measures(lab, img, case["perm"], sk, skip=zskip)
     o["sub"] = _measures(lab, img, case["sub"], sk, skip=zskip)
     o["absent"] = _measures(lab, img, case["absent"], sk, skip=zskip)
@@ -816,6 +822,12 @@ def model(ctx, cases, outs):
         ctx.count("mec_vectorised_model_skipped_large_call", len(ks) - len(cheap))
         for k, r in zip(cheap, ctx.run_model("entry_chrystal_vec", [[cases[k][key], outs[k][tag]] for k in cheap])):
             res[k]["mecvec_" + tag] = r
+    # calculate_convex_hull_areas as written (ragged bookkeeping) on the hull rows of the call
+    for tag, key in (("hullv", "idx"), ("hullv_perm", "perm"), ("hullv_absent", "absent")):
+        ks = [k for k, c in enumerate(cases) if c["fn"] == "scene" and isinstance(outs[k], dict)
+              and isinstance(outs[k].get(tag), list)]
+        for k, r in zip(ks, ctx.run_model("entry_hull_areas_vec", [[cases[k][key], outs[k][tag]] for k in ks])):
+            res[k]["hav_" + tag] = r
     # b18's as-written median model (the one the C13 median theorems are about) on the base scene
     margs, mwhere = [], []
     for k, c in enumerate(cases):
@@ -962,6 +974,28 @@ def _compare_mec_feret(idx, hullv, mec, mecvec, sweep, o, run):
     return None
 
 
+def _compare_hull_areas_vec(lab, idx, hullv, hav, harea, o, run):
+    """the as-written model of calculate_convex_hull_areas: where it raises, and its values"""
+    if isinstance(hav, dict):
+        return "%s: hull area (as written) model error %s" % (run, hav)
+    if hav == []:                               # the model predicts IndexError
+        if _hull_ok(lab, idx):
+            return "%s: as-written hull area model predicts IndexError inside the declared domain (request %s)" % (run, idx)
+        return None
+    if not _hull_ok(lab, idx):
+        return "%s: as-written hull area model does not raise outside the declared domain (request %s)" % (run, idx)
+    rows = hav[0]
+    if harea is not None and rows != harea:
+        return "%s: as-written hull area model %s differs from the per-object model %s" % (run, str(rows)[:200], str(harea)[:200])
+    if not isinstance(o.get("charea"), list):
+        return "%s: calculate_convex_hull_areas raised %s" % (run, o.get("charea"))
+    for k, (r, a) in enumerate(zip(rows, o["charea"])):
+        want = math.sqrt(r[1] / r[2]) + 1 if r[0] == 2 else r[1] / r[2]
+        if not _close(want, a, 1e-9, 1e-12):
+            return "%s: convex hull area of label %d: impl %r, as-written model %r (vertices %s)" % (run, idx[k], a, want, hullv[k])
+    return None
+
+
 def compare(case, out, m):
     if _bad(out):
         return "implementation raised/crashed: %s" % (str(out)[:300],)
@@ -992,6 +1026,12 @@ def compare(case, out, m):
         if "mec_" + tag not in m:
             continue
         d = _compare_mec_feret(case[key], out[tag], m["mec_" + tag], m.get("mecvec_" + tag), m["sweep_" + tag], out[run], run)
+        if d:
+            return d
+    for tag, key, run in (("hullv", "idx", "base"), ("hullv_perm", "perm", "perm"), ("hullv_absent", "absent", "absent")):
+        if "hav_" + tag not in m:
+            continue
+        d = _compare_hull_areas_vec(np.array(case["lab"]), case[key], out[tag], m["hav_" + tag], m.get("harea") if run == "base" else None, out[run], run)
         if d:
             return d
     if "med18" in m and isinstance(m["base"], list) and m["med18"] != m["base"][4]:
@@ -1442,7 +1482,14 @@ MANIFEST = {
         "(bincount, grouped reductions, anti-index tables, cumulative ragged offsets, same-label-as-neighbour bits) "
         "and of the integer/rational-exact measurements built from them (areas, extents, perimeters, Euler number, "
         "median, ellipse central moments, skeleton length): each is per-object independent, follows a renumbering and "
-        "the request order. The models are tied to the code by exact comparison of complete outputs on generated "
+        "the request order. Composed with C02's convex_hull_ijv and C14's Chrystal / calipers models, whole-call "
+        "theorems without per-run certificates: the rows emitted for a requested label are the hull of that label's "
+        "own pixels; calculate_convex_hull_areas as written (ragged offsets, compaction, modulo wrap) returns, label "
+        "by label, the value of the label's own hull and is independent of every other label; the vectorised "
+        "Chrystal loop equals the per-object one; the circle is the minimum enclosing circle of the label's pixels; "
+        "the maximum Feret diameter is their diameter and the minimum Feret diameter is their minimum width over "
+        "ALL directions (min over edges of max cross^2/|edge|^2 = min over u of (projection extent)^2/|u|^2, exact "
+        "integers). The models are tied to the code by exact comparison of complete outputs on generated "
         "scenes; for all twelve measurements the three relations of the property are evaluated on the "
         "implementation itself (two-run)."),
     "level_note": (
